@@ -51,6 +51,41 @@ type Case struct {
 	// spellings the label syntax offers are mixed in - from the root package "lib:h0.dawn", inside //lib
 	// ":h1.dawn", from //p1 "q:BUILD.dawn" - so that one module is reached under several spellings
 	Spell int `json:"spell,omitempty"`
+	// Missing lists helpers whose file does not exist (a load label with a typo, a helper that was renamed)
+	Missing []int `json:"missing,omitempty"`
+}
+
+func (c *Case) isMissing(h int) bool {
+	for _, m := range c.Missing {
+		if m == h {
+			return true
+		}
+	}
+	return false
+}
+
+// missingReachable: does some BUILD file load, directly or not, a helper whose file does not exist?
+func (c *Case) missingReachable() bool {
+	seen := map[int]bool{}
+	found := false
+	var walk func(n int)
+	walk = func(n int) {
+		if seen[n] || !c.valid(n) {
+			return
+		}
+		seen[n] = true
+		if n < 100 && c.isMissing(n) {
+			found = true
+			return
+		}
+		for _, x := range c.loadsOf(n) {
+			walk(x)
+		}
+	}
+	for p := range c.Pkgs {
+		walk(100 + p)
+	}
+	return found
 }
 
 var pkgPaths = []string{"//", "//p1", "//p2", "//p1/q"}
@@ -161,6 +196,10 @@ func (c *Case) write(dir string) {
 	os.WriteFile(filepath.Join(dir, "dawn.toml"), []byte("name = \"t\"\n"), 0o644)
 	os.MkdirAll(filepath.Join(dir, "lib"), 0o755)
 	for i, loads := range c.Helpers {
+		if c.isMissing(i) {
+			os.Remove(filepath.Join(dir, "lib", fmt.Sprintf("h%d.dawn", i)))
+			continue
+		}
 		var b strings.Builder
 		sum := "1"
 		for k, h := range loads {
@@ -258,6 +297,15 @@ func exec(c Case) (v ev.Verdict) {
 			v.NonTrivial = true
 			break
 		}
+	}
+	if c.missingReachable() {
+		// Load has returned (that is what the statement asks of it here); a missing file cannot load
+		v.Classes = append(v.Classes, "missing-module")
+		v.NonTrivial = true
+		if loadErr == nil {
+			return ev.Failf("missing-module-loaded", "a reachable module file does not exist but Load succeeded")
+		}
+		return v
 	}
 	if cyclic {
 		v.Classes = append(v.Classes, fmt.Sprintf("cyclic:%d", min(clen, 4)))
@@ -392,6 +440,9 @@ func gen(t *rapid.T) Case {
 		}
 		c.Pkgs = append(c.Pkgs, loads)
 		c.Flags = append(c.Flags, rapid.IntRange(0, 2).Draw(t, "flag") == 2)
+	}
+	if nh > 0 && rapid.IntRange(0, 5).Draw(t, "missing") == 5 {
+		c.Missing = append(c.Missing, rapid.IntRange(0, nh-1).Draw(t, "missingh"))
 	}
 	// BUILD files may also load each other (and helpers may load a BUILD file): the module of a
 	// package is then registered by whichever loader goroutine gets there first
